@@ -22,6 +22,9 @@ Enumerated completely:
     mean and scale invariance; plane / constant fits with slopes x {1e-3, 1} and offsets {0, +-100, +-1000} px;
   * integer-origin RANGE: shift_origin_to with per-pattern origins and target coordinate over [-2H,2H] x [-2W,2W] (negative,
     zero, exactly H/W, beyond, mixed signs, planes crossing the edges), shift_array over the same range;
+  * object histories (length 2..3 quick, ..4 thorough) over calculate / set origins + shift (two origin sets, corner and another
+    target, both modes) / copy, deepcopy, pickle (save+load in fixed histories) / model.tensor = model.shifted_tensor: every exposed
+    result is kept and must stay bit-identical; after every event BOTH objects are judged by their own oracle;
   * call histories: every single call / ordered pair (thorough: triple) of calculate_origin, shift_origin_to (corner and
     other targets), fit_origin_background and preprocess on models sharing a detector shape, modules re-imported before each
     history, the LAST call judged ("a result must not depend on earlier calls"), inputs bit-identical afterwards.
@@ -66,7 +69,7 @@ RULE = (
     "actually splits the set or the row and column centres differ by > 0.05 px (a swap would show); a shift point when the roll is "
     "not the identity; distinct = distinct (configuration, batch size, path). Shift parts also on detectors {13,16,17,26}x{8,13} "
     "both ways (scan (2,3)); shift_array: every integer shift x 2 branches; integer-origin roll: scans x detectors x 3 origin/fit "
-    "kinds x both classes x (vectorized, bilinear); call histories: all singles and ordered pairs (thorough: triples) over 20 calls; intensity scale (8 powers of ten x float32/float64) x all paths; origin range [-2H,2H]x[-2W,2W] for origins and target; input dtype (8, three count levels) x layout (4) "
+    "kinds x both classes x (vectorized, bilinear); call histories: all singles and ordered pairs (thorough: triples) over 20 calls; object histories: every history of length 2..3 (thorough 4) over 13 events incl. copies and feed-back; intensity scale (8 powers of ten x float32/float64) x all paths; origin range [-2H,2H]x[-2W,2W] for origins and target; input dtype (8, three count levels) x layout (4) "
     "x 2 scans x 2 detectors x all paths and batch sizes."
 )
 
@@ -1353,6 +1356,240 @@ def eval_range(case):
     return t
 
 
+# ----------------------------------------------------------------------------- part 10: object histories (kept results, copies, feed-back)
+# Every result a call exposes (shifted_tensor, origin_measured, origin_fitted, the model's tensor; com arrays of the dataset
+# model) is KEPT (object + bitwise copy) and re-compared after every later event: a kept result must not change. Copies
+# (copy.copy / deepcopy / pickle, save+load in fixed histories) are used further with other origins / targets and the ordinary
+# oracle is applied to BOTH objects after every event: each object's shifted stack is the roll by ITS OWN origins at ITS last
+# shift, its origin_measured the weighted mean of ITS data at its last calculate_origin, its tensor the content it was given.
+# Feed-back: model.tensor = model.shifted_tensor, then calculate / shift again on the new content as it was when assigned.
+OH_SCAN = (2, 3)
+OH_DET = (6, 8)
+OH_EVENTS = [
+    ["calc", "x", None],
+    ["calc", "y", 4],
+    ["shift", "x", "A", [0, 0], "bilinear"],
+    ["shift", "x", "B", [0, 0], "bilinear"],
+    ["shift", "x", "A", [0, 0], "nearest"],
+    ["shift", "y", "A", [0, 0], "bilinear"],
+    ["shift", "y", "B", [0, 0], "bilinear"],
+    ["shift", "y", "B", [2, 3], "bilinear"],
+    ["copy", "copy"],
+    ["copy", "deepcopy"],
+    ["copy", "pickle"],
+    ["feedback", "x"],
+    ["feedback", "y"],
+]
+OH_SAVELOAD_HISTORIES = [  # save + load costs ~0.5 s: fixed histories instead of an alphabet member
+    [["calc", "x", None], ["shift", "x", "A", [0, 0], "bilinear"], ["copy", "saveload"], ["shift", "y", "B", [0, 0], "bilinear"]],
+    [["shift", "x", "A", [0, 0], "bilinear"], ["copy", "saveload"], ["shift", "x", "B", [2, 3], "bilinear"], ["calc", "y", 4]],
+]
+
+
+def oh_origins(which):
+    H, W = OH_DET
+    kk = np.arange(OH_SCAN[0] * OH_SCAN[1])
+    A = np.stack([(1 + kk) % H, (2 + 2 * kk) % W], -1)
+    return A if which == "A" else (A + np.array([2, 3])) % np.array([H, W])
+
+
+def _clone_model(om, how, scratch):
+    import copy
+    import pickle
+
+    if how == "copy":
+        return copy.copy(om)
+    if how == "deepcopy":
+        return copy.deepcopy(om)
+    if how == "pickle":
+        return pickle.loads(pickle.dumps(om))
+    if how == "saveload":
+        import os
+        import tempfile
+
+        from quantem.core.io.serialize import load
+
+        d = tempfile.mkdtemp(dir=scratch)
+        pth = os.path.join(d, "model.zip")
+        om.save(pth)
+        return load(pth)
+    raise ValueError(how)
+
+
+def object_history(hist, seed, scratch=None, verbose=False):
+    """Run one history; after EVERY event check kept results and both objects. Returns (list of (cls, msg), applicable)."""
+    from quantem.diffractive_imaging.origin_models import CenterOfMassOriginModel
+
+    H, W = OH_DET
+    N = OH_SCAN[0] * OH_SCAN[1]
+    data0 = make_data(OH_SCAN, OH_DET, "seeded", seed)
+    x = {"name": "original", "om": CenterOfMassOriginModel.from_dataset(make_ds(data0)), "data": data0.copy(), "com": None, "fit": None, "shift": None}
+    objs = {"x": x, "y": x}
+    kept = []  # (label, tensor object, bitwise clone, event index)
+    fails = []
+
+    def keep(rec, i):
+        om = rec["om"]
+        for label in ("shifted_tensor", "origin_measured", "origin_fitted", "tensor"):
+            t = getattr(om, label, None)
+            if isinstance(t, torch.Tensor) and not any(k[1] is t for k in kept):
+                kept.append((f"{rec['name']}.{label}", t, t.detach().clone(), i))
+
+    def check(i, ev):
+        for label, t, c, j in kept:
+            if t.shape != c.shape or not torch.equal(t, c):
+                fails.append(({"relation": "kept_result_unchanged", "result": label.split(".")[1]}, f"history {hist[: i + 1]}: the {label} obtained after event {j} ({hist[j]}) changed during event {i} ({ev})"))
+        seen = []
+        for rec in objs.values():
+            if any(rec is r for r in seen):
+                continue
+            seen.append(rec)
+            om = rec["om"]
+
+            def bad(what, detail):
+                fails.append(({"relation": "object_state_matches_its_own_history", "what": what, "object": rec["name"]}, f"history {hist[: i + 1]}: after event {i} ({ev}) the {rec['name']} model's {what} {detail}"))
+
+            tn = om.tensor.detach().cpu().numpy()
+            if tn.shape != rec["data"].shape or not np.array_equal(tn, rec["data"]):
+                bad("tensor", "is no longer the content it was given")
+            if rec["com"] is not None:
+                o = om.origin_measured.detach().cpu().numpy().astype(np.float64)
+                d = float(np.max(np.abs(o - rec["com"])))
+                if not (d <= TOL_COM):
+                    bad("origin_measured", f"differs from the weighted mean of its data at its last calculate_origin by {d:.3e} px")
+            if rec["fit"] is not None and not np.array_equal(om.origin_fitted.detach().cpu().numpy(), rec["fit"].astype(np.float32)):
+                bad("origin_fitted", "is no longer the origins it was given")
+            if rec["shift"] is not None:
+                sh = om.shifted_tensor.detach().cpu().numpy().astype(np.float64)
+                d = float(np.max(np.abs(sh - rec["shift"]))) / float(rec["shift"].max()) if sh.shape == rec["shift"].shape else float("inf")
+                if not (d <= TOL_SHIFT):
+                    bad("shifted_tensor", f"differs from the roll of its own data by its own origins (as of its last shift_origin_to) by {d:.3e} of the maximum")
+
+    for i, ev in enumerate(hist):
+        kind = ev[0]
+        if kind == "copy":
+            src = objs["x"]
+            try:
+                om2 = _clone_model(src["om"], ev[1], scratch)
+            except Exception as e:
+                fails.append(({"relation": "copy_supported", "how": ev[1], "class": "CenterOfMassOriginModel"}, f"history {hist[: i + 1]}: {ev[1]} of the origin model raised {type(e).__name__}: {str(e)[:200]}"))
+                return fails, True
+            objs["y"] = {"name": "copy", "om": om2, "data": src["data"].copy(), "com": None if src["com"] is None else src["com"].copy(), "fit": None if src["fit"] is None else src["fit"].copy(), "shift": None if src["shift"] is None else src["shift"].copy()}
+            keep(objs["y"], i)
+        else:
+            rec = objs[ev[1]]
+            om = rec["om"]
+            if kind == "calc":
+                om.calculate_origin(ev[2])
+                er, ec = oracle_com(rec["data"], None)
+                rec["com"] = np.stack([er.ravel(), ec.ravel()], -1)
+            elif kind == "shift":
+                org = oh_origins(ev[2])
+                om.origin_fitted = torch.tensor(org, dtype=torch.float32)
+                om.shift_origin_to(tuple(ev[3]), max_batch_size=4, mode=ev[4])
+                flat = rec["data"].reshape(N, H, W).astype(np.float64)
+                rec["fit"] = org.astype(np.float64)
+                rec["shift"] = np.stack([np.roll(flat[k], (int(ev[3][0] - org[k, 0]), int(ev[3][1] - org[k, 1])), axis=(0, 1)) for k in range(N)]).reshape(rec["data"].shape)
+            elif kind == "feedback":
+                if om.shifted_tensor is None:
+                    return [], False  # not applicable: nothing to feed back
+                content = om.shifted_tensor.detach().cpu().numpy().copy()
+                om.tensor = om.shifted_tensor
+                rec["data"] = content
+            keep(rec, i)
+        check(i, ev)
+        if verbose:
+            print(f"    event {i} {ev}: {len(kept)} kept results, {len(fails)} failures so far")
+        if fails:
+            break  # the shortest failing prefix is the finding
+    return fails, True
+
+
+def eval_object_history(item, seed=0, depth=3):
+    t = Tally()
+    first = list(item)
+    level = [[]]
+    tails = []
+    for _ in range(depth - 1):
+        level = [tl + [e] for tl in level for e in OH_EVENTS]
+        tails += level
+    for tail in tails:
+        hist = [first] + tail
+        try:
+            fails, applicable = object_history(hist, seed)
+        except Exception as e:
+            t.case(key=hist, nontrivial=True, outcome="raised")
+            t.fail({"relation": "history_runs", "part": "object_history"}, {"part": "object_history", "history": hist, "seed": seed, "relation": "history_runs", "cls_path": None}, f"object history {hist}: raised {type(e).__name__}: {str(e)[:200]}")
+            continue
+        if not applicable:
+            t.extra["object_histories_not_applicable"] += 1
+            continue
+        t.case(key=hist, nontrivial=True, outcome=None)
+        t.extra["object_histories"] += 1
+        t.extra["object_histories_with_a_copy"] += int(any(e[0] == "copy" for e in hist))
+        t.extra["object_histories_with_feed_back"] += int(any(e[0] == "feedback" for e in hist))
+        for cls, msg in fails[:2]:
+            t.fail(cls, {"part": "object_history", "history": hist, "seed": seed, "relation": cls["relation"], "cls_path": None}, msg)
+    return t
+
+
+def eval_object_history_fixed(item, seed=0, scratch=None):
+    """fixed histories with save + load, and the dataset-model copies"""
+    t = Tally()
+    kind, payload = item
+    if kind == "saveload":
+        fails, _ = object_history(payload, seed, scratch=scratch)
+        t.case(key=payload, nontrivial=True, outcome=None)
+        t.extra["object_histories_with_save_and_load"] += 1
+        for cls, msg in fails[:2]:
+            t.fail(cls, {"part": "object_history", "history": payload, "seed": seed, "relation": cls["relation"], "cls_path": None}, msg)
+        return t
+    how, which = payload
+    for cls, msg in dataset_copy_case(how, which, seed, t):
+        t.fail(cls, {"part": "dataset_copy", "how": how, "which": which, "seed": seed, "relation": cls["relation"], "cls_path": None}, msg)
+    return t
+
+
+def dataset_copy_case(how, which, seed, t=None, verbose=False):
+    """dataset model: preprocess, copy, preprocess the copy (or the original) with other settings; both judged, com arrays kept"""
+    import copy
+    import pickle
+
+    arr = make_data(OH_SCAN, OH_DET, "seeded", seed)
+    er, ec = oracle_com(arr, None)
+    want = np.stack([er, ec])
+    p = run_preprocess_obj(arr, True, "none", False)
+    try:
+        q = {"copy": copy.copy, "deepcopy": copy.deepcopy, "pickle": lambda o: pickle.loads(pickle.dumps(o))}[how](p)
+    except Exception as e:
+        if t is not None:
+            t.extra[f"dataset_model_{how}_not_supported"] += 1  # counted, not flagged (deepcopy raises on HEAD)
+        if verbose:
+            print(f"    {how} of the dataset model raised {type(e).__name__}: {e}")
+        return []
+    fails = []
+    kept = [(n, getattr(o, n), np.array(getattr(o, n), copy=True) if isinstance(getattr(o, n), np.ndarray) else getattr(o, n).detach().clone()) for o in (p, q) for n in ("com_measured", "com_fit", "centered_amplitudes")]
+    target = q if which == "copy" else p
+    kw = dict(com_fit_function="constant", force_com_rotation=0.0, force_com_transpose=False, plot_rotation=False, plot_com=False, obj_padding_px=(8, 8), bilinear=True)
+    if seams()["preprocess_vectorized"]:
+        kw["vectorized"] = False
+    with warnings.catch_warnings():
+        warnings.simplefilter("ignore")
+        target.preprocess(**kw)
+    for name, o in (("original", p), ("copy", q)):
+        d = float(np.max(np.abs(np.asarray(o.com_measured, dtype=np.float64) - want)))
+        if not (d <= TOL_COM):
+            fails.append(({"relation": "object_state_matches_its_own_history", "what": "com_measured", "object": name}, f"dataset model, {how}, the {which} preprocessed again: the {name}'s com_measured differs from the weighted mean by {d:.3e} px"))
+    for n, obj, snap in kept:
+        same = np.array_equal(obj, snap) if isinstance(obj, np.ndarray) else torch.equal(obj, snap)
+        if not same:
+            fails.append(({"relation": "kept_result_unchanged", "result": n}, f"dataset model, {how}: a kept {n} changed when the {which} was preprocessed again"))
+    if t is not None:
+        t.case(key=["dataset_copy", how, which], nontrivial=True, outcome=None)
+        t.extra["dataset_model_copy_cases"] += 1
+    return fails
+
+
 # ----------------------------------------------------------------------------- run / replay
 def run(ctx):
     warnings.simplefilter("ignore")
@@ -1369,6 +1606,7 @@ def run(ctx):
         "a plane through a scan with an axis of length 1 is not unique, but its values at the scan positions are; such scans stay in the lattice",
         "integer fitted origin -> roll: the origin model is judged with the fitted origins rounded to the integers they equal within 1e-4 (shift_origin_to is exact only for bit-exact integers: for an origin such as 2.99999 the wrapped row is interpolated against zero padding; counted in count_origin_model_unrounded_fitted_origin_loses_wrapped_pixels, not a verdict); the dataset model is judged with its own fitted origins",
         "input dtype x layout: complex64 is rejected by both classes on HEAD and is counted, not flagged; every other rejection of a dtype or memory layout of the alphabet is a failure (dtype_accepted / layout_accepted)",
+        "object histories: copy.deepcopy of a preprocessed PtychographyDatasetRaster raises on HEAD (torch refuses to deepcopy non-leaf tensors): counted, not flagged (copying is not part of the property); save+load (0.5 s per model) appears in fixed histories only; there is no public feed-back for the dataset model",
         "origin range: integer origins outside the detector (negative, >= H/W) and integer target coordinates other than the corner are judged by np.roll by (coordinate - origin), which is modular; in the call-history part a shift to another target still only appears as an earlier call",
         "a shift_origin_to call with a target other than the corner is outside the property and only appears as an EARLIER call of a history",
     )
@@ -1452,6 +1690,13 @@ def run(ctx):
     # call histories on freshly imported modules
     depth = 2 if ctx.quick else 3
     mF = ctx.pmap(eval_history, hist_calls(), chunk=1, label="call histories", seed=ctx.seed, depth=depth)
+    # object histories: kept results, copies used further, feed-back (length 2..3 quick, ..4 thorough)
+    odepth = 3 if ctx.quick else 4
+    mO = ctx.pmap(eval_object_history, OH_EVENTS, chunk=1, label="object histories", seed=ctx.seed, depth=odepth)
+    fixed = [("saveload", h) for h in OH_SAVELOAD_HISTORIES] + [("dataset", (how, which)) for how in ("copy", "deepcopy", "pickle") for which in ("copy", "original")]
+    mO2 = ctx.pmap(eval_object_history_fixed, fixed, chunk=1, label="save+load and dataset-model copies", seed=ctx.seed, scratch=ctx.scratch)
+    if ctx.tally.nfails == 0 and (mO.extra["object_histories_with_a_copy"] < 300 or mO.extra["object_histories_with_feed_back"] < 100):
+        raise Broken(f"object-history part degenerate: {dict(mO.extra)}")
     # vacuity guards only speak when nothing failed: a defect may legitimately cut an enumeration short (failing pipelines
     # are recorded as failures, not counted as evaluated), and a recorded failure must never be pre-empted by "broken"
     if ctx.tally.nfails == 0 and mF.extra["histories_with_an_earlier_non_corner_shift_on_the_same_detector"] < 50:
@@ -1471,6 +1716,7 @@ def run(ctx):
             "plane_coefficients": {"slopes": PLANE_SLOPES, "offsets": PLANE_OFFSETS, "constants_row_x_column": CONSTANTS},
             "fit_paths": ["ptycho_utils.fit_origin(mask=all true)", "CenterOfMassOriginModel.fit_origin_background", "preprocess(com_fit_function).com_fit", "calculate_origin + fit_origin_background"],
             "shift": "every integer origin of the detector x {uniform, per-pattern} x every batch size x {bilinear, nearest}",
+            "object_histories": {"events": OH_EVENTS, "histories": f"every history of length 2..{odepth}; after every event: kept results bit-identical, both objects against their own oracle", "fixed_histories_with_save_and_load": OH_SAVELOAD_HISTORIES, "dataset_model": "preprocess -> copy/deepcopy/pickle -> preprocess the copy or the original with other settings; both judged, com arrays and centred amplitudes kept"},
             "intensity_scales": {"scales": SCALES, "dtypes": ["float32", "float64"], "scans": [list(x) for x in SC_SCANS], "detectors": [list(x) for x in SC_DETS], "data": sc_kinds, "rule": "a scale is used when every stored float32 value and total x largest coordinate is a normal finite float32"},
             "origin_magnitudes_for_fits": {"slope_scales": SLOPE_SCALES, "constant_offsets_px": ORIGIN_OFFSETS, "tolerance": "1e-5 x max(|origin|, 10) px"},
             "origin_range": "shift_origin_to: origins (uniform; per-pattern plane crossing the edges, mixed signs) and target coordinate over [-2H,2H] x [-2W,2W], batch sizes {None, 4} (coarse grid {-2n,-n-1,-n,-1,0,1,n-1,n,n+1,2n}: every batch size), both modes; shift_array over the same range",
@@ -1496,6 +1742,13 @@ def run(ctx):
         origin_range_calls_with_mixed_signs=int(mR.extra["range_calls_with_mixed_signs"]),
         integer_origin_pipelines=int(mE.n),
         call_histories=int(mF.n),
+        object_histories=int(mO.n),
+        object_histories_with_a_copy=int(mO.extra["object_histories_with_a_copy"]),
+        object_histories_with_feed_back=int(mO.extra["object_histories_with_feed_back"]),
+        object_history_depth=odepth,
+        object_histories_with_save_and_load=int(mO2.extra["object_histories_with_save_and_load"]),
+        dataset_model_copy_cases=int(mO2.extra["dataset_model_copy_cases"]),
+        dataset_model_copy_kinds_not_supported_on_this_tree={k: int(mO2.extra[f"dataset_model_{k}_not_supported"]) for k in ("copy", "deepcopy", "pickle")},
         dtype_layout_points=int(mG.n),
         dtype_configurations_accepted=accepted,
         dtype_configurations_rejected_by_the_library=rejected,
@@ -1520,6 +1773,15 @@ def replay(ctx, case):
         fails, _ = shift_case(case, verbose=True)
     elif part == "shift_array":
         fails, _ = shift_array_case(case, verbose=True)
+    elif part == "object_history":
+        fails = []
+        f2, _ = object_history(case["history"], case.get("seed", 0), scratch=ctx.scratch, verbose=True)
+        for cls, msg in f2[:2]:
+            ctx.fail(cls, case, msg)
+    elif part == "dataset_copy":
+        fails = []
+        for cls, msg in dataset_copy_case(case["how"], case["which"], case.get("seed", 0), None, verbose=True):
+            ctx.fail(cls, case, msg)
     elif part == "scale":
         print(f"  {case['dtype']} intensities x {case['scale']:g}, scan {case['scan']} det {case['det']} data {case['kind']} (all paths and batch sizes re-run)")
         fails, _, _ = scale_case(case, verbose=True)
